@@ -13,8 +13,9 @@ class HeaderMember:
     def __init__(self, protected: Header | None = None, header: Header | None = None):
         #: protected header
         self.protected = protected
-        #: unprotected header
-        self.header = header
+        #: unprotected header (a dict of its own: ``set_kid`` writes into it, also
+        #: when one dict was given for several members)
+        self.header = dict(header) if header is not None else None
 
     def headers(self) -> Header:
         rv: Header = {}
